@@ -39,4 +39,5 @@ else
   ./run ${CHECK:-$ID} ${TIER:-quick} > /tmp/mutant_$ID.out 2>&1; rc=$?
   git -C /repo checkout -- .
 fi
+git -C /verif checkout -- evidence 2>/dev/null  # evidence files must come from runs against the unchanged tree
 echo "check rc=$rc"; grep "^violation\|^summary\|^KNOWN" /tmp/mutant_$ID.out | cut -c1-260 | head -12
